@@ -403,31 +403,31 @@ void h_destroy(void)
 /* ================================================================== (d) observation points */
 #ifdef API
 typedef Slot gr_slot; typedef Segment gr_segment; typedef CharInfo gr_char_info;
-/*@extract {'if':'API', 'file':'src/gr_slot.cpp', 'sig': r'const gr_slot\* gr_slot_next_in_segment\(const gr_slot\* p(?:/\*[^*]*\*/)?\)', 'emit':'const gr_slot *gr_slot_next_in_segment(const gr_slot *p)', 'casts':True, 'methods':['next']}@*/
-/*@extract {'if':'API', 'file':'src/gr_slot.cpp', 'sig': r'const gr_slot\* gr_slot_prev_in_segment\(const gr_slot\* p(?:/\*[^*]*\*/)?\)', 'emit':'const gr_slot *gr_slot_prev_in_segment(const gr_slot *p)', 'casts':True, 'methods':['prev']}@*/
-/*@extract {'if':'API', 'file':'src/gr_slot.cpp', 'sig': r'const gr_slot\* gr_slot_attached_to\(const gr_slot\* p(?:/\*[^*]*\*/)?\)', 'emit':'const gr_slot *gr_slot_attached_to(const gr_slot *p)', 'casts':True, 'methods':['attachedTo']}@*/
-/*@extract {'if':'API', 'file':'src/gr_slot.cpp', 'sig': r'const gr_slot\* gr_slot_first_attachment\(const gr_slot\* p(?:/\*[^*]*\*/)?\)', 'emit':'const gr_slot *gr_slot_first_attachment(const gr_slot *p)', 'casts':True, 'methods':['firstChild']}@*/
-/*@extract {'if':'API', 'file':'src/gr_slot.cpp', 'sig': r'const gr_slot\* gr_slot_next_sibling_attachment\(const gr_slot\* p(?:/\*[^*]*\*/)?\)', 'emit':'const gr_slot *gr_slot_next_sibling_attachment(const gr_slot *p)', 'casts':True, 'methods':['nextSibling']}@*/
-/*@extract {'if':'API', 'file':'src/gr_slot.cpp', 'sig': r'unsigned short gr_slot_gid\(const gr_slot\* p(?:/\*[^*]*\*/)?\)', 'emit':'unsigned short gr_slot_gid(const gr_slot *p)', 'methods':['glyph']}@*/
-/*@extract {'if':'API', 'file':'src/gr_slot.cpp', 'sig': r'float gr_slot_origin_X\(const gr_slot\* p(?:/\*[^*]*\*/)?\)', 'emit':'float gr_slot_origin_X(const gr_slot *p)', 'methods':['origin']}@*/
-/*@extract {'if':'API', 'file':'src/gr_slot.cpp', 'sig': r'float gr_slot_origin_Y\(const gr_slot\* p(?:/\*[^*]*\*/)?\)', 'emit':'float gr_slot_origin_Y(const gr_slot *p)', 'methods':['origin']}@*/
-/*@extract {'if':'API', 'file':'src/gr_slot.cpp', 'sig': r'int gr_slot_before\(const gr_slot\* p(?:/\*[^*]*\*/)?\)', 'emit':'int gr_slot_before(const gr_slot *p)', 'methods':['before']}@*/
-/*@extract {'if':'API', 'file':'src/gr_slot.cpp', 'sig': r'int gr_slot_after\(const gr_slot\* p(?:/\*[^*]*\*/)?\)', 'emit':'int gr_slot_after(const gr_slot *p)', 'methods':['after']}@*/
-/*@extract {'if':'API', 'file':'src/gr_slot.cpp', 'sig': r'unsigned int gr_slot_index\(const gr_slot \*p(?:/\*[^*]*\*/)?\)', 'emit':'unsigned int gr_slot_index(const gr_slot *p)', 'methods':['index']}@*/
-/*@extract {'if':'API', 'file':'src/gr_slot.cpp', 'sig': r'int gr_slot_original\(const gr_slot\* p(?:/\*[^*]*\*/)?\)', 'emit':'int gr_slot_original(const gr_slot *p)', 'methods':['original']}@*/
-/*@extract {'if':'API', 'file':'src/gr_slot.cpp', 'sig': r'int gr_slot_can_insert_before\(const gr_slot\* p(?:/\*[^*]*\*/)?\)', 'emit':'int gr_slot_can_insert_before(const gr_slot *p)', 'methods':['isInsertBefore']}@*/
+/*@extract {'if':'API', 'file':'src/gr_slot.cpp', 'sig': r'const gr_slot\* gr_slot_next_in_segment\(const gr_slot\* p(?:/\*[^*]*\*/)?\)', 'emit':'const gr_slot *gr_slot_next_in_segment(const gr_slot *p)', 'casts':True, 'methods':['next','prev','attachedTo','firstChild','nextSibling','glyph','gid','origin','before','after','index','original','isInsertBefore','isBase','isDeleted','isCopied']}@*/
+/*@extract {'if':'API', 'file':'src/gr_slot.cpp', 'sig': r'const gr_slot\* gr_slot_prev_in_segment\(const gr_slot\* p(?:/\*[^*]*\*/)?\)', 'emit':'const gr_slot *gr_slot_prev_in_segment(const gr_slot *p)', 'casts':True, 'methods':['next','prev','attachedTo','firstChild','nextSibling','glyph','gid','origin','before','after','index','original','isInsertBefore','isBase','isDeleted','isCopied']}@*/
+/*@extract {'if':'API', 'file':'src/gr_slot.cpp', 'sig': r'const gr_slot\* gr_slot_attached_to\(const gr_slot\* p(?:/\*[^*]*\*/)?\)', 'emit':'const gr_slot *gr_slot_attached_to(const gr_slot *p)', 'casts':True, 'methods':['next','prev','attachedTo','firstChild','nextSibling','glyph','gid','origin','before','after','index','original','isInsertBefore','isBase','isDeleted','isCopied']}@*/
+/*@extract {'if':'API', 'file':'src/gr_slot.cpp', 'sig': r'const gr_slot\* gr_slot_first_attachment\(const gr_slot\* p(?:/\*[^*]*\*/)?\)', 'emit':'const gr_slot *gr_slot_first_attachment(const gr_slot *p)', 'casts':True, 'methods':['next','prev','attachedTo','firstChild','nextSibling','glyph','gid','origin','before','after','index','original','isInsertBefore','isBase','isDeleted','isCopied']}@*/
+/*@extract {'if':'API', 'file':'src/gr_slot.cpp', 'sig': r'const gr_slot\* gr_slot_next_sibling_attachment\(const gr_slot\* p(?:/\*[^*]*\*/)?\)', 'emit':'const gr_slot *gr_slot_next_sibling_attachment(const gr_slot *p)', 'casts':True, 'methods':['next','prev','attachedTo','firstChild','nextSibling','glyph','gid','origin','before','after','index','original','isInsertBefore','isBase','isDeleted','isCopied']}@*/
+/*@extract {'if':'API', 'file':'src/gr_slot.cpp', 'sig': r'unsigned short gr_slot_gid\(const gr_slot\* p(?:/\*[^*]*\*/)?\)', 'emit':'unsigned short gr_slot_gid(const gr_slot *p)', 'methods':['next','prev','attachedTo','firstChild','nextSibling','glyph','gid','origin','before','after','index','original','isInsertBefore','isBase','isDeleted','isCopied']}@*/
+/*@extract {'if':'API', 'file':'src/gr_slot.cpp', 'sig': r'float gr_slot_origin_X\(const gr_slot\* p(?:/\*[^*]*\*/)?\)', 'emit':'float gr_slot_origin_X(const gr_slot *p)', 'methods':['next','prev','attachedTo','firstChild','nextSibling','glyph','gid','origin','before','after','index','original','isInsertBefore','isBase','isDeleted','isCopied']}@*/
+/*@extract {'if':'API', 'file':'src/gr_slot.cpp', 'sig': r'float gr_slot_origin_Y\(const gr_slot\* p(?:/\*[^*]*\*/)?\)', 'emit':'float gr_slot_origin_Y(const gr_slot *p)', 'methods':['next','prev','attachedTo','firstChild','nextSibling','glyph','gid','origin','before','after','index','original','isInsertBefore','isBase','isDeleted','isCopied']}@*/
+/*@extract {'if':'API', 'file':'src/gr_slot.cpp', 'sig': r'int gr_slot_before\(const gr_slot\* p(?:/\*[^*]*\*/)?\)', 'emit':'int gr_slot_before(const gr_slot *p)', 'methods':['next','prev','attachedTo','firstChild','nextSibling','glyph','gid','origin','before','after','index','original','isInsertBefore','isBase','isDeleted','isCopied']}@*/
+/*@extract {'if':'API', 'file':'src/gr_slot.cpp', 'sig': r'int gr_slot_after\(const gr_slot\* p(?:/\*[^*]*\*/)?\)', 'emit':'int gr_slot_after(const gr_slot *p)', 'methods':['next','prev','attachedTo','firstChild','nextSibling','glyph','gid','origin','before','after','index','original','isInsertBefore','isBase','isDeleted','isCopied']}@*/
+/*@extract {'if':'API', 'file':'src/gr_slot.cpp', 'sig': r'unsigned int gr_slot_index\(const gr_slot \*p(?:/\*[^*]*\*/)?\)', 'emit':'unsigned int gr_slot_index(const gr_slot *p)', 'methods':['next','prev','attachedTo','firstChild','nextSibling','glyph','gid','origin','before','after','index','original','isInsertBefore','isBase','isDeleted','isCopied']}@*/
+/*@extract {'if':'API', 'file':'src/gr_slot.cpp', 'sig': r'int gr_slot_original\(const gr_slot\* p(?:/\*[^*]*\*/)?\)', 'emit':'int gr_slot_original(const gr_slot *p)', 'methods':['next','prev','attachedTo','firstChild','nextSibling','glyph','gid','origin','before','after','index','original','isInsertBefore','isBase','isDeleted','isCopied']}@*/
+/*@extract {'if':'API', 'file':'src/gr_slot.cpp', 'sig': r'int gr_slot_can_insert_before\(const gr_slot\* p(?:/\*[^*]*\*/)?\)', 'emit':'int gr_slot_can_insert_before(const gr_slot *p)', 'methods':['next','prev','attachedTo','firstChild','nextSibling','glyph','gid','origin','before','after','index','original','isInsertBefore','isBase','isDeleted','isCopied']}@*/
 
-/*@extract {'if':'API', 'file':'src/gr_segment.cpp', 'sig': r'unsigned int gr_seg_n_cinfo\(const gr_segment\* pSeg(?:/\*[^*]*\*/)?\)', 'emit':'unsigned int gr_seg_n_cinfo(const gr_segment *pSeg)', 'casts':True, 'methods':['charInfoCount']}@*/
-/*@extract {'if':'API', 'file':'src/gr_segment.cpp', 'sig': r'const gr_char_info\* gr_seg_cinfo\(const gr_segment\* pSeg(?:/\*[^*]*\*/)?, unsigned int index(?:/\*[^*]*\*/)?\)', 'emit':'const gr_char_info *gr_seg_cinfo(const gr_segment *pSeg, unsigned int index)', 'casts':True, 'methods':['charinfo']}@*/
-/*@extract {'if':'API', 'file':'src/gr_segment.cpp', 'sig': r'unsigned int gr_seg_n_slots\(const gr_segment\* pSeg(?:/\*[^*]*\*/)?\)', 'emit':'unsigned int gr_seg_n_slots(const gr_segment *pSeg)', 'casts':True, 'methods':['slotCount']}@*/
-/*@extract {'if':'API', 'file':'src/gr_segment.cpp', 'sig': r'const gr_slot\* gr_seg_first_slot\(gr_segment\* pSeg(?:/\*[^*]*\*/)?\)', 'emit':'const gr_slot *gr_seg_first_slot(gr_segment *pSeg)', 'casts':True, 'methods':['first']}@*/
-/*@extract {'if':'API', 'file':'src/gr_segment.cpp', 'sig': r'const gr_slot\* gr_seg_last_slot\(gr_segment\* pSeg(?:/\*[^*]*\*/)?\)', 'emit':'const gr_slot *gr_seg_last_slot(gr_segment *pSeg)', 'casts':True, 'methods':['last']}@*/
+/*@extract {'if':'API', 'file':'src/gr_segment.cpp', 'sig': r'unsigned int gr_seg_n_cinfo\(const gr_segment\* pSeg(?:/\*[^*]*\*/)?\)', 'emit':'unsigned int gr_seg_n_cinfo(const gr_segment *pSeg)', 'casts':True, 'methods':['charInfoCount','charinfo','slotCount','first','last']}@*/
+/*@extract {'if':'API', 'file':'src/gr_segment.cpp', 'sig': r'const gr_char_info\* gr_seg_cinfo\(const gr_segment\* pSeg(?:/\*[^*]*\*/)?, unsigned int index(?:/\*[^*]*\*/)?\)', 'emit':'const gr_char_info *gr_seg_cinfo(const gr_segment *pSeg, unsigned int index)', 'casts':True, 'methods':['charInfoCount','charinfo','slotCount','first','last']}@*/
+/*@extract {'if':'API', 'file':'src/gr_segment.cpp', 'sig': r'unsigned int gr_seg_n_slots\(const gr_segment\* pSeg(?:/\*[^*]*\*/)?\)', 'emit':'unsigned int gr_seg_n_slots(const gr_segment *pSeg)', 'casts':True, 'methods':['charInfoCount','charinfo','slotCount','first','last']}@*/
+/*@extract {'if':'API', 'file':'src/gr_segment.cpp', 'sig': r'const gr_slot\* gr_seg_first_slot\(gr_segment\* pSeg(?:/\*[^*]*\*/)?\)', 'emit':'const gr_slot *gr_seg_first_slot(gr_segment *pSeg)', 'casts':True, 'methods':['charInfoCount','charinfo','slotCount','first','last']}@*/
+/*@extract {'if':'API', 'file':'src/gr_segment.cpp', 'sig': r'const gr_slot\* gr_seg_last_slot\(gr_segment\* pSeg(?:/\*[^*]*\*/)?\)', 'emit':'const gr_slot *gr_seg_last_slot(gr_segment *pSeg)', 'casts':True, 'methods':['charInfoCount','charinfo','slotCount','first','last']}@*/
 
-/*@extract {'if':'API', 'file':'src/gr_char_info.cpp', 'sig': r'unsigned int gr_cinfo_unicode_char\(const gr_char_info\* p(?:/\*[^*]*\*/)?\)', 'emit':'unsigned int gr_cinfo_unicode_char(const gr_char_info *p)', 'methods':['unicodeChar']}@*/
-/*@extract {'if':'API', 'file':'src/gr_char_info.cpp', 'sig': r'int gr_cinfo_break_weight\(const gr_char_info\* p(?:/\*[^*]*\*/)?\)', 'emit':'int gr_cinfo_break_weight(const gr_char_info *p)', 'methods':['breakWeight']}@*/
-/*@extract {'if':'API', 'file':'src/gr_char_info.cpp', 'sig': r'int gr_cinfo_after\(const gr_char_info \*p(?:/\*[^*]*\*/)?\)', 'emit':'int gr_cinfo_after(const gr_char_info *p)', 'methods':['after']}@*/
-/*@extract {'if':'API', 'file':'src/gr_char_info.cpp', 'sig': r'int gr_cinfo_before\(const gr_char_info \*p(?:/\*[^*]*\*/)?\)', 'emit':'int gr_cinfo_before(const gr_char_info *p)', 'methods':['before']}@*/
-/*@extract {'if':'API', 'file':'src/gr_char_info.cpp', 'sig': r'size_t gr_cinfo_base\(const gr_char_info \*p(?:/\*[^*]*\*/)?\)', 'emit':'size_t gr_cinfo_base(const gr_char_info *p)', 'methods':['base']}@*/
+/*@extract {'if':'API', 'file':'src/gr_char_info.cpp', 'sig': r'unsigned int gr_cinfo_unicode_char\(const gr_char_info\* p(?:/\*[^*]*\*/)?\)', 'emit':'unsigned int gr_cinfo_unicode_char(const gr_char_info *p)', 'methods':['unicodeChar','breakWeight','after','before','base','fid','flags']}@*/
+/*@extract {'if':'API', 'file':'src/gr_char_info.cpp', 'sig': r'int gr_cinfo_break_weight\(const gr_char_info\* p(?:/\*[^*]*\*/)?\)', 'emit':'int gr_cinfo_break_weight(const gr_char_info *p)', 'methods':['unicodeChar','breakWeight','after','before','base','fid','flags']}@*/
+/*@extract {'if':'API', 'file':'src/gr_char_info.cpp', 'sig': r'int gr_cinfo_after\(const gr_char_info \*p(?:/\*[^*]*\*/)?\)', 'emit':'int gr_cinfo_after(const gr_char_info *p)', 'methods':['unicodeChar','breakWeight','after','before','base','fid','flags']}@*/
+/*@extract {'if':'API', 'file':'src/gr_char_info.cpp', 'sig': r'int gr_cinfo_before\(const gr_char_info \*p(?:/\*[^*]*\*/)?\)', 'emit':'int gr_cinfo_before(const gr_char_info *p)', 'methods':['unicodeChar','breakWeight','after','before','base','fid','flags']}@*/
+/*@extract {'if':'API', 'file':'src/gr_char_info.cpp', 'sig': r'size_t gr_cinfo_base\(const gr_char_info \*p(?:/\*[^*]*\*/)?\)', 'emit':'size_t gr_cinfo_base(const gr_char_info *p)', 'methods':['unicodeChar','breakWeight','after','before','base','fid','flags']}@*/
 
 #define SLOT_SAME(a, b) ((a).m_next == (b).m_next && (a).m_prev == (b).m_prev && (a).m_glyphid == (b).m_glyphid && (a).m_realglyphid == (b).m_realglyphid \
     && (a).m_original == (b).m_original && (a).m_before == (b).m_before && (a).m_after == (b).m_after && (a).m_index == (b).m_index \
